@@ -421,3 +421,16 @@ package objecttree
 //@   requires ot != nil && ot.tree != nil && ot.flusher != nil && ot.storage != nil && umVerifyAll
 //@   requires !memAhead && !rebuilt
 //@   ensures [error_never_leaves_memory_ahead] err != nil ==> rebuilt || !memAhead
+
+// ---------------------------------------------------------------------------------------------
+// C10: deleting a tree. The live object is marked deleted exactly when the storage delete succeeded:
+// a failed storage delete leaves the live tree as it was (still usable, and a retry really deletes).
+//@ ghost treeDeleteCalls Int stable
+//@ func iface objecttree.Storage.Delete
+//@   modifies nothing
+//@   sets treeDeleteCalls = treeDeleteCalls + 1
+//@ func (*objectTree).Delete
+//@   requires ot != nil && ot.storage != nil
+//@   ensures [failed_delete_keeps_tree_live] result != nil ==> ot.isDeleted == old(ot.isDeleted)
+//@   ensures [deleted_after_success]         result == nil ==> ot.isDeleted
+//@   ensures [live_tree_reaches_storage]     !old(ot.isDeleted) ==> treeDeleteCalls == old(treeDeleteCalls) + 1
